@@ -54,7 +54,7 @@ type c04Case struct {
 func init() {
 	engine.Register(&engine.Check{
 		ID: "C04", Level: "model_checking",
-		Rule:   "states = decision points of a reference WKB/EWKB reader model (byte order, type word, SRID, counts per level, coordinate blocks, truncation, trailing bytes); DFS over all field-choice sequences with <=3 (quick) / <=4 (thorough) non-default choices, <=14 fields, for WKB, WKB-NaN and EWKB under limit configurations {-1,0,2}^3 (quick) / {-1,0,1,2}^3 (thorough); every generated string is decoded by Unmarshal, hex Decode and Scan and compared with the model verdict OK(geometry)/TooLarge{level,n,limit}/Error (an input the model rejects may be accepted by a more liberal decoder if the result is well formed and canonical; an input the model accepts must be accepted when it is the standard encoding); forged counts are tried in ascending magnitude with the heap-allocation delta measured around each decode; plus a role-blind sweep (every prefix, every byte x 5 values, every 4-byte word x count menu) of every corpus encoding under enabled limits, and a nesting-depth family in a sacrificial subprocess Also: valid encodings with 100..4000 (thorough 16000) one-to-three-position rings / lines / points / polygons / collection members decoded with the allocation measured (must stay additive in the input length); an SRID word on every kind at every nesting level, generation starting from a collection / multipolygon / multilinestring as outermost kind, and intact encodings with one coordinate array of 2^k+1 positions (k=11..16) decoded, re-encoded and decoded again. Round 10: 100/1000/3000 nested collections cut off before the innermost member (an error, allocation additive in the input length). Round 12: the deepest complete nested decode of the thorough tier is 10^5 levels (the library builds the result in quadratic time); every depth probe under a 12-minute deadline.",
+		Rule:   "states = decision points of a reference WKB/EWKB reader model (byte order, type word, SRID, counts per level, coordinate blocks, truncation, trailing bytes); DFS over all field-choice sequences with <=3 (quick) / <=4 (thorough) non-default choices, <=14 fields, for WKB, WKB-NaN and EWKB under limit configurations {-1,0,2}^3 (quick) / {-1,0,1,2}^3 (thorough); every generated string is decoded by Unmarshal, hex Decode and Scan and compared with the model verdict OK(geometry)/TooLarge{level,n,limit}/Error (an input the model rejects may be accepted by a more liberal decoder if the result is well formed and canonical; an input the model accepts must be accepted when it is the standard encoding); forged counts are tried in ascending magnitude with the heap-allocation delta measured around each decode; plus a role-blind sweep (every prefix, every byte x 5 values, every 4-byte word x count menu) of every corpus encoding under enabled limits, and a nesting-depth family in a sacrificial subprocess Also: valid encodings with 100..4000 (thorough 16000) one-to-three-position rings / lines / points / polygons / collection members decoded with the allocation measured (must stay additive in the input length); an SRID word on every kind at every nesting level, generation starting from a collection / multipolygon / multilinestring as outermost kind, and intact encodings with one coordinate array of 2^k+1 positions (k=11..16) decoded, re-encoded and decoded again. Round 10: 100/1000/3000 nested collections cut off before the innermost member (an error, allocation additive in the input length). Round 12: the deepest complete nested decode of the thorough tier is 10^5 levels (the library builds the result in quadratic time); every depth probe under a 12-minute deadline. Round 13: the truncated chains of nested collections again with every announced count equal to the limit.",
 		Run:    c04Run,
 		Replay: func(c *engine.Ctx, kind string, raw json.RawMessage) { c04Exec(c, decodeCase[c04Case](raw)) },
 		Assumptions: []string{
@@ -964,6 +964,21 @@ func c04Run(c *engine.Ctx) {
 					}
 					c.Count("deep_truncated_encodings", 1)
 					c04DeepTrunc(c, c04Case{Mode: "deeptrunc", Ext: f.Ext, Limits: cfg}, enc)
+					// the same chain with every level announcing as many members as the limit allows
+					// (none refused, none backed by input): room reserved per announced member at
+					// every level multiplies the limit by the depth
+					if cfg[1] > 0 && depth <= 1000 {
+						big := append([]byte{}, enc...)
+						for k := 0; k < depth; k++ {
+							if xdr {
+								binary.BigEndian.PutUint32(big[9*k+5:], uint32(cfg[1]))
+							} else {
+								binary.LittleEndian.PutUint32(big[9*k+5:], uint32(cfg[1]))
+							}
+						}
+						c.Count("deep_truncated_encodings", 1)
+						c04DeepTrunc(c, c04Case{Mode: "deeptrunc", Ext: f.Ext, Limits: cfg}, big)
+					}
 				}
 			}
 		}
